@@ -219,6 +219,18 @@ def build_driver():
             return True, 'cached'
         gen_dir = os.path.join(OCAML, 'gen')
         os.makedirs(gen_dir, exist_ok=True)
+        # every model file the extraction imports must be compiled from its current source
+        ext_src = open(os.path.join(COQ, 'extract', 'Extract.v')).read()
+        targets = []
+        for line in re.findall(r'Require Import ([^.]*(?:\.[A-Za-z][^.]*)*)\.\s', ext_src):
+            for mod in line.split():
+                if mod.startswith('Selium.'):
+                    targets.append('theories/%s.vo' % mod[len('Selium.'):])
+                elif mod.startswith('SeliumGen.'):
+                    targets.append('gen/%s.vo' % mod[len('SeliumGen.'):])
+        okm, outm = coq_make(targets)
+        if not okm:
+            return False, outm
         with Lock('coq'):
             rc, out = sh(['coqc', '-Q', os.path.join(COQ, 'theories'), 'Selium', '-Q', GEN, 'SeliumGen',
                           '-w', '-notation-overridden,-ambiguous-paths,-extraction',
@@ -395,10 +407,35 @@ class Check:
         return 1 if (self.violations or self.broken) else 0
 
 
+def gen_deps(props_file):
+    """names of the generated files (gen/X.v) the given theorem file depends on, transitively"""
+    seen, todo, gens = set(), [props_file], set()
+    while todo:
+        f = todo.pop()
+        if f in seen:
+            continue
+        seen.add(f)
+        try:
+            src = open(os.path.join(COQ, f)).read()
+        except OSError:
+            continue
+        for line in re.findall(r'Require (?:Import|Export) ([^.]*(?:\.[A-Za-z][^.]*)*)\.\s', src):
+            for mod in line.split():
+                if mod.startswith('Selium.'):
+                    todo.append('theories/%s.v' % mod[len('Selium.'):])
+                elif mod.startswith('SeliumGen.'):
+                    gens.add(mod[len('SeliumGen.'):] + '.v')
+                    todo.append('gen/%s.v' % mod[len('SeliumGen.'):])
+    return gens
+
+
 def prove(check, props_file, theorems, extra_targets=()):
     """Regenerates gen/, builds the property's theorem file, audits sources and assumptions.
     Fills coverage.obligations/discharged.  Returns True when every obligation is discharged."""
     gen_status, manifest = regenerate()
+    needed = gen_deps(props_file)
+    # a translator failure concerns this property only when its theorems are stated over that file
+    gen_status = {k: v for k, v in gen_status.items() if k in needed}
     for name, err in gen_status.items():
         if err:
             check.obligation_broken('translator could not regenerate gen/%s from the current source' % name, err)
